@@ -308,6 +308,99 @@ fn check_f64_scaled(a: &M, scale: f64, acc: &mut Acc) -> Result<(), String> {
     Ok(())
 }
 
+/// every 3x3 (and 2x2) matrix over {0, +-1, 2^20, 2^-20}: determinant against the exact integer determinant of the scaled
+/// matrix (singular members included), inverse residual for the members with exact condition number <= 2^20
+fn mixed_space(ctx: &Ctx, n: usize) {
+    let big = (1u64 << 20) as f64;
+    let lf = [0.0, 1.0, -1.0, big, 1.0 / big];
+    let li: [i128; 5] = [0, 1 << 20, -(1 << 20), 1 << 40, 1];
+    ctx.lattice(
+        &format!("f64 n={} mixed-magnitude lattice: all matrices over {{0,1,-1,2^20,2^-20}}", n),
+        pow(5, (n * n) as u32),
+        |idx| {
+            let mut d = vec![0usize; n * n];
+            digits_uniform(idx, 5, &mut d);
+            format!("{:?}", d.iter().map(|&k| lf[k]).collect::<Vec<f64>>())
+        },
+        |idx, acc| {
+            let mut d = vec![0usize; n * n];
+            digits_uniform(idx, 5, &mut d);
+            let e = |i: usize, j: usize| li[d[i * n + j]];
+            let det: i128 = if n == 2 {
+                e(0, 0) * e(1, 1) - e(0, 1) * e(1, 0)
+            } else {
+                e(0, 0) * (e(1, 1) * e(2, 2) - e(1, 2) * e(2, 1)) - e(0, 1) * (e(1, 0) * e(2, 2) - e(1, 2) * e(2, 0)) + e(0, 2) * (e(1, 0) * e(2, 1) - e(1, 1) * e(2, 0))
+            };
+            let adj = |i: usize, j: usize| -> i128 {
+                if n == 2 {
+                    let v = e(1 - j, 1 - i);
+                    if (i + j) % 2 == 0 { v } else { -v }
+                } else {
+                    let rs: Vec<usize> = (0..3).filter(|&r0| r0 != j).collect();
+                    let cs: Vec<usize> = (0..3).filter(|&c0| c0 != i).collect();
+                    let m = e(rs[0], cs[0]) * e(rs[1], cs[1]) - e(rs[0], cs[1]) * e(rs[1], cs[0]);
+                    if (i + j) % 2 == 0 { m } else { -m }
+                }
+            };
+            let af: Vec<Vec<f64>> = (0..n).map(|i| (0..n).map(|j| lf[d[i * n + j]]).collect()).collect();
+            let key = || format!("mixed A={:?}", af);
+            if det == 0 {
+                acc.nontriv("singular mixed-magnitude member");
+            } else {
+                acc.nontriv("nonsingular mixed-magnitude member");
+            }
+            let res = catch(|| -> Result<(f64, f64), String> {
+                let am = model::to_mat64(&af);
+                let snap = am.clone();
+                let hadamard: f64 = af.iter().map(|row| row.iter().map(|x| x * x).sum::<f64>().sqrt()).map(|x| if x == 0.0 { 1.0 } else { x }).product();
+                let got = am.determinant();
+                // det(2^20 A) = 2^(20 n) det A, exactly
+                let want = det as f64 / big.powi(n as i32);
+                // elimination with partial pivoting is backward stable normwise: det(A + E) with |E_ij| <= c eps max|a|, so the
+                // determinant moves by at most c eps max|a| sum |cofactors| (the Hadamard measure used on the evenly scaled
+                // lattices is too strict for badly row-scaled members: 1.05e-12 was observed on [[1,2^20,2^20],[1,-1,1],[1,1,0]])
+                let _ = hadamard;
+                let amax = af.iter().flat_map(|r0| r0.iter()).fold(0.0f64, |m, x| m.max(x.abs()));
+                let cof_sum: f64 = (0..n).map(|i| (0..n).map(|j| (adj(i, j) as f64).abs()).sum::<f64>()).sum::<f64>() / big.powi(n as i32 - 1);
+                let scale = amax * cof_sum;
+                let err = if scale == 0.0 { (got - want).abs() } else { (got - want).abs() / scale };
+                ensure!(err <= 8.0 * f64::EPSILON, "f64 determinant {:e} vs exact {:e}: error {:e} of max|a| * sum|cofactors| = {:e}", got, want, err, scale);
+                ensure!(am == snap, "determinant() modified the matrix");
+                if det == 0 {
+                    return Ok((err, 0.0));
+                }
+                let norm_a = (0..n).map(|i| (0..n).map(|j| (e(i, j) as f64).abs()).sum::<f64>()).fold(0.0, f64::max);
+                let norm_adj = (0..n).map(|i| (0..n).map(|j| (adj(i, j) as f64).abs()).sum::<f64>()).fold(0.0, f64::max);
+                let cond = norm_a * norm_adj / (det as f64).abs();
+                if cond > (1u64 << 20) as f64 {
+                    return Ok((err, 0.0));
+                }
+                let inv = am.inverse();
+                ensure!(am == snap, "inverse() modified the matrix");
+                // entrywise against the exact inverse adj / det
+                let mut worst = 0.0f64;
+                let ninv = norm_adj / (det as f64).abs() * big; // ||A^-1||_inf of the unscaled matrix
+                for i in 0..n {
+                    for j in 0..n {
+                        let exact = adj(i, j) as f64 / det as f64 * big;
+                        worst = worst.max((inv[(i, j)] - exact).abs() / ninv);
+                    }
+                }
+                ensure!(worst <= cond * 8.0 * f64::EPSILON, "inverse differs from adj/det by {:e} ||A^-1|| with condition number {:e}", worst, cond);
+                Ok((err, worst / cond))
+            });
+            match res {
+                Ok(Ok((e1, e2))) => {
+                    acc.worst("mixed_det_error_over_amax_cofactors", e1, key);
+                    acc.worst("mixed_inverse_error_over_cond", e2, key);
+                }
+                Ok(Err(e)) => acc.fail(idx, key(), e),
+                Err(p) => acc.fail(idx, key(), format!("unexpected panic: {}", p)),
+            }
+        },
+    );
+}
+
 fn f64_space(ctx: &Ctx, n: usize, letters: Vec<Rat>, lname: &str) {
     let len = pow(letters.len() as u64, (n * n) as u32);
     ctx.lattice(
@@ -448,6 +541,8 @@ fn main() {
     ctx.assume("orders 5..8 are covered through structured families only, not exhaustively");
     ctx.threshold("det_error_over_hadamard_f64", DET_REL);
     ctx.threshold("inverse_residual_f64", INV_RES);
+    ctx.threshold("mixed_inverse_error_over_cond", 8.0 * f64::EPSILON);
+    ctx.threshold("mixed_det_error_over_amax_cofactors", 8.0 * f64::EPSILON);
     ctx.threshold("det_error_over_hadamard_complex", DET_REL);
     ctx.threshold("inverse_residual_complex", INV_RES);
     ctx.require(&["singular", "zero row", "zero column", "odd number of row exchanges", "even (>=2) number of row exchanges", "order >= 5"]);
@@ -468,6 +563,8 @@ fn main() {
     f64_space(&ctx, 2, z5(), "{0,1,-1,2,-2}");
     f64_space(&ctx, 3, z3(), "{0,1,-1}");
     scaled_f64_space(&ctx);
+    mixed_space(&ctx, 2);
+    mixed_space(&ctx, 3);
     complex_space(&ctx, 1, true);
     complex_space(&ctx, 2, true);
     complex_space(&ctx, 3, false);
